@@ -225,7 +225,7 @@ def tv_functions(items, expected, rtol=1e-9):
         n += 1
         for i, (a, b) in enumerate(zip(ex, vals)):
             if a is None or b is None: continue
-            if abs(a - b) > rtol * max(abs(a), abs(b)) + 1e-300: mism.append('%s: value %d extracted %.12g real %.12g' % (tag, i, a, b)); break
+            if abs(a - b) > rtol * max(abs(a), abs(b)) + 1e-18: mism.append('%s: value %d extracted %.12g real %.12g' % (tag, i, a, b)); break
     return n, mism
 
 
